@@ -41,6 +41,9 @@ pub enum WOp {
     /// Int: `extend` from a vector of u8 / u16 / u32 / u64 / usize (ity 0..4); `inexact`: through an
     /// iterator adapter whose size hint has lower bound 0.
     Extend { ity: u8, n: usize, salt: u64, #[serde(default)] inexact: bool },
+    /// Int: `extend` from an iterator that yields `at` items and then panics (the caller's bug, caught by the
+    /// caller): the writer must have counted and kept exactly those items.
+    ExtendPanics { n: usize, at: usize, salt: u64 },
     Len,
     IsOpen,
     Close,
@@ -142,11 +145,14 @@ impl Writer {
         let width = gen_width(rng);
         let unit = if kind == WKind::Int { width } else { 1 };
         // Target size of the pushed data in bits. Faulty runs enumerate every fault point, so they stay small.
+        // A buffer above the 8 Mibit default that really fills is expensive (megabytes per history): rare.
+        let above_default = !faulty && rng.chance(1, if big { 1500 } else { 6000 });
         let target_bits: usize = if faulty { *rng.pick(&[0usize, 64, 500, 3000, 9000, 20_000]) }
+            else if above_default { 2 * 8 * 1024 * 1024 + rng.range_usize(64, 400_000) }
             else if big && rng.chance(1, 400) { 8 * 1024 * 1024 + rng.range_usize(0, 200_000) }
             else { *rng.pick(&[0usize, 1, 63, 64, 65, 200, 1000, 5000, 20_000, 70_000]) };
         let huge = target_bits > 1_000_000;
-        let buf_len: Option<usize> = if huge || rng.chance(1, 12) { None } else {
+        let buf_len: Option<usize> = if above_default { Some(if kind == WKind::Int { 2 * 8 * 1024 * 1024 / width } else { 2 * 8 * 1024 * 1024 }) } else if huge || rng.chance(1, 12) { None } else {
             let w = unit;
             let choice = match rng.below(12) {
                 0 => 0, 1 => 1, 2 => 63, 3 => 64, 4 => 65,
@@ -175,6 +181,7 @@ impl Writer {
                 WKind::Int => match rng.below(10) {
                     0 | 1 | 2 => { ops.push(WOp::Push(if rng.chance(1, 4) { rng.next() } else { rng.wide() })); bits += width; },
                     3 | 4 | 5 | 6 => { let n = rng.range_usize(1, (left / width).min(if huge { 100_000 } else { 60 }).max(1)); ops.push(WOp::PushN { n, salt: rng.next() & 0xFFFF }); bits += n * width; },
+                    7 if !faulty && rng.chance(1, 4) => { let n = rng.range_usize(1, 60); let at = rng.range_usize(0, n); ops.push(WOp::ExtendPanics { n, at, salt: rng.next() & 0xFFFF }); bits += at * width; },
                     _ => { let n = rng.range_usize(0, (left / width).min(if huge { 100_000 } else { 60 }).max(1)); ops.push(WOp::Extend { ity: rng.below(5) as u8, n, salt: rng.next() & 0xFFFF, inexact: rng.chance(1, 3) }); bits += n * width; },
                 },
             }
@@ -316,6 +323,12 @@ impl Writer {
                             }
                         }
                     },
+                    (WOp::ExtendPanics { n, at, salt }, W::Int(x)) => {
+                        let vals = rand_vals(*n, *salt);
+                        let at = *at;
+                        let r = catch(std::panic::AssertUnwindSafe(|| x.extend(vals.into_iter().enumerate().map(move |(i, v)| { if i >= at { panic!("sdsim: the caller's iterator panics"); } v }))));
+                        match r { Err(ref m) if m.contains("the caller's iterator panics") => {}, Err(p) => return Err(v("extend-panic", site, format!("op {}: extend panicked on its own: {}", i, p))), Ok(()) => if at < *n { return Err(v("harness", "writer-op", "the iterator should have panicked".into())); } }
+                    },
                     (WOp::Len, _) if tr.push_panicked => {},
                     (WOp::Len, W::Raw(x)) => { if x.len() != len_model { return Err(v("len", site, format!("op {}: len() = {}, {} bits were pushed", i, x.len(), len_model))); } if x.is_empty() != (len_model == 0) { return Err(v("len", site, "is_empty() disagrees with len()".into())); } },
                     (WOp::Len, W::Int(x)) => { if x.len() != len_model { return Err(v("len", site, format!("op {}: len() = {}, {} items were pushed", i, x.len(), len_model))); } if x.width() != self.width { return Err(v("len", site, "width() changed".into())); } },
@@ -341,6 +354,7 @@ impl Writer {
                 WOp::Bits { n, .. } => { if !tr.push_panicked { len_model += *n; tr.pushes += *n as u64; for _ in 0..*n { note_push(1, &mut tr, &mut fill); } } },
                 WOp::Ints { n, w: width, .. } => { if !tr.push_panicked { len_model += n * width; tr.pushes += *n as u64; for _ in 0..*n { note_push(*width, &mut tr, &mut fill); } } },
                 WOp::Push(_) => { len_model += 1; tr.pushes += 1; note_push(self.width, &mut tr, &mut fill); },
+                WOp::ExtendPanics { n, at, .. } => { if !tr.push_panicked { let k = (*at).min(*n); len_model += k; tr.pushes += k as u64; for _ in 0..k { note_push(self.width, &mut tr, &mut fill); } stats.probe("extend from an iterator that panics partway"); } },
                 WOp::PushN { n, .. } | WOp::Extend { n, .. } => { if !tr.push_panicked { len_model += *n; tr.pushes += *n as u64; for _ in 0..*n { note_push(self.width, &mut tr, &mut fill); } } },
                 WOp::Len | WOp::IsOpen => {},
                 WOp::Close => {
@@ -456,6 +470,7 @@ impl Writer {
             out.stats.probe_if(tr.closes >= 2, "close() called again after success");
             out.stats.probe_if(self.buf_len.is_none() && (tr.flush_overflow || tr.flush_exact), "default-buffer flush");
             out.stats.probe_if(self.buf_len == Some(0), "buffer size 0");
+            out.stats.probe_if(self.effective_buf_bits() > 8 * 1024 * 1024 && (tr.flush_overflow || tr.flush_exact), "flush of a buffer larger than the default");
             out.stats.probe_if(!self.header.is_empty(), "parent header (close_with_header)");
             out.stats.probe_if(self.real == RealMode::Plain, "real file system cross-check");
             out.stats.probe_if(self.preexisting > expected.len(), "longer file already present");
@@ -514,6 +529,7 @@ impl Writer {
                 WOp::Bits { n, salt } if *n > 1 => vec![WOp::Bits { n: n / 2, salt: *salt }, WOp::Bits { n: n - 1, salt: *salt }],
                 WOp::Ints { n, w, salt } if *n > 1 => vec![WOp::Ints { n: n / 2, w: *w, salt: *salt }, WOp::Ints { n: n - 1, w: *w, salt: *salt }],
                 WOp::PushN { n, salt } if *n > 1 => vec![WOp::PushN { n: n / 2, salt: *salt }, WOp::PushN { n: n - 1, salt: *salt }],
+                WOp::ExtendPanics { n, at, salt } if *n > 1 => vec![WOp::ExtendPanics { n: n / 2, at: (*at).min(n / 2), salt: *salt }, WOp::PushN { n: *at, salt: *salt }],
                 WOp::Extend { ity, n, salt, inexact } if *n > 0 => vec![WOp::Extend { ity: *ity, n: n / 2, salt: *salt, inexact: *inexact }, WOp::PushN { n: *n, salt: *salt }],
                 WOp::Int { v, w } if *v != 0 => vec![WOp::Int { v: 0, w: *w }],
                 WOp::Push(v) if *v != 0 => vec![WOp::Push(0)],
@@ -599,6 +615,10 @@ fn apply_model(m: &mut M, op: &WOp, pushes: &mut u64) {
         (WOp::Ints { n, w, salt }, M::Raw(x)) => { for val in rand_vals(*n, *salt) { unsafe { x.push_int(val, *w); } } *pushes += *n as u64; },
         (WOp::Push(v), M::Int(x)) => { x.push(*v); *pushes += 1; },
         (WOp::PushN { n, salt }, M::Int(x)) => { for val in rand_vals(*n, *salt) { x.push(val); } *pushes += *n as u64; },
+        (WOp::ExtendPanics { n, at, salt }, M::Int(x)) => {
+            for val in rand_vals(*n, *salt).into_iter().take(*at) { x.push(val); }
+            *pushes += (*at).min(*n) as u64;
+        },
         (WOp::Extend { ity, n, salt, .. }, M::Int(x)) => {
             for val in rand_vals(*n, *salt) {
                 let t = match ity { 0 => val as u8 as u64, 1 => val as u16 as u64, 2 => val as u32 as u64, _ => val };
